@@ -35,6 +35,24 @@ def _flush_scan(relpath, qual, selfname_expected=None):
     return found or 'false', lineno
 
 
+def _bag_guard_scan():
+    """Bag._process_object: what guards the (partial) processing of a related object?  Old: `if related_obj not in bag.dicts:` (an
+    object tested against an entity-keyed dict: never skips) and an unguarded to-one branch -> 'false'.  Repaired: both branches skip
+    objects that were given to the bag (`... not in bag.objects.get(<obj>.__class__, ())`) -> 'true'.  Anything else is refused."""
+    fdef, src, lineno = load_function('pony/orm/serialization.py', 'Bag._process_object')
+    calls = [n for n in ast.walk(fdef) if isinstance(n, ast.Call) and ast.unparse(n.func) == 'bag._process_object']
+    if len(calls) != 2: raise TranslateError('_process_object: expected two recursive calls, found %d' % len(calls))
+    tests = [ast.unparse(n.test) for n in ast.walk(fdef) if isinstance(n, ast.If) and any(c in ast.walk(n) for c in calls) and
+             not any(isinstance(m, ast.If) and m is not n and any(c in ast.walk(m) for c in calls) and m in ast.walk(n) and
+                     set(c2 for c2 in calls if c2 in ast.walk(m)) == set(c2 for c2 in calls if c2 in ast.walk(n)) for m in ast.walk(n))]
+    old = {'related_obj not in bag.dicts', 'process_related_objects'}
+    new = {'related_obj not in bag.objects.get(related_obj.__class__, ())', 'process_related_objects and value not in bag.objects.get(value.__class__, ())'}
+    got = set(tests)
+    if new <= got and not (got & {'related_obj not in bag.dicts'}): return 'true', lineno
+    if old <= got: return 'false', lineno
+    raise TranslateError('_process_object: guards of the related-object calls not recognised: %r' % sorted(got))
+
+
 def generate():
     fdef, src, lineno = load_function('pony/orm/serialization.py', 'Bag._reduce_composite_pk')
     names = [a.arg for a in fdef.args.args]
@@ -78,6 +96,9 @@ def generate():
     e_flush, l1 = _flush_scan('pony/orm/core.py', 'Entity.to_dict')
     b_flush, l2 = _flush_scan('pony/orm/serialization.py', 'Bag.to_dict')
     d_flush, l3 = _flush_scan('pony/orm/core.py', 'Database.to_json')
+    g_skip, l4 = _bag_guard_scan()
+    out += ['(* pony/orm/serialization.py:%d Bag._process_object: are related objects that were themselves given to the bag left alone? *)' % l4,
+            'Definition bag_skips_given_related : bool := %s.' % g_skip, '']
     out += ['(* pony/orm/core.py:%d Entity.to_dict / pony/orm/serialization.py:%d Bag.to_dict: is the whole session flushed before the attributes are read? *)' % (l1, l2),
             'Definition to_dict_flushes_session : bool := %s.' % e_flush,
             'Definition bag_to_dict_flushes_session : bool := %s.' % b_flush,
